@@ -3,6 +3,7 @@ open Driver_base
 
 (* C09 / C15: Find <T|G> nraw.. nrep.. exp ws we npat pat.. fn n => cnt values.. [srccalls] *)
 let find_handler prop = reg prop "Find" (fun ver args obs ->
+  if obs = ["TIMEOUT"] then { model = ["RETURNS"]; tags = []; spec = Some "the search did not return within its time budget"; known = None } else
   let a = mk args in
   let kind = Hist.kind_code (next a) in
   let raw = next_list a next_z in
@@ -14,7 +15,7 @@ let find_handler prop = reg prop "Find" (fun ver args obs ->
   let (v, d) = hist_base (Hist.ver_z ver) (z_of_int kind) raw rep e in
   let v = (match ws with Zneg _ -> v | _ -> with_start v ws) in
   let v = (match we with Zneg _ -> v | _ -> with_end v we) in
-  let (lo, w) = text_of d v (nat_of_int 330) in
+  let (lo, w) = text_of d v (nat_of_int (max 330 (List.length raw + 12))) in
   (* rerun variants (9, 10) answer like 7, 8; v1/v2 have no push iterators: 7..10 are emulated by pulls *)
   let fn' = (match fn with 9 -> 7 | 10 -> 8 | x -> x) in
   let finite_type = (match v with FN (_, _) | MWS (_, _) -> true | _ -> false) in
@@ -34,6 +35,25 @@ let find_handler prop = reg prop "Find" (fun ver args obs ->
     let spec = if obs_res <> expect_t then Some "reported positions are not the occurrences of the pattern (naive specification)" else None in
     let tags = (if List.length res > 1 then ["multi"] else []) @ (if pat = [] then ["emptypat"] else [])
                @ (if List.mem fn [3; 4; 6; 8; 10] then ["backward"] else []) @ (if fn >= 9 then ["rerun"] else []) in
+    (* C15: digits consulted: no further than the later of the sequence's start and the end of the last reported
+       match, plus the bounded read-ahead; v3 with n <= 0 consults nothing beyond the constructor's first-digit probe *)
+    let spec =
+      if prop <> "C15" || spec <> None then spec
+      else (match extra with
+        | [c] when kind = 1 && rep <> [] && List.mem fn [0; 1; 5; 7; 9] ->
+          let calls = int_of_string c in
+          let ints = List.map small_int_of_z res in
+          let reported = List.filter (fun x -> x >= 0) ints in
+          let lo' = small_int_of_z lo in
+          let last_end = (match List.rev reported with [] -> -1 | x :: _ -> x + max (List.length pat) 1 - 1) in
+          let n' = small_int_of_z n in
+          if ver = "v3" && fn = 1 && n' <= 0 && calls <> 1 then
+            Some (Printf.sprintf "FindFirstN with n <= 0 consulted %d positions (v3 must consult nothing)" calls)
+          else if calls > (max lo' last_end) + 2 + 1000 then
+            Some (Printf.sprintf "%d positions consulted; the last reported match ends at %d, the sequence starts at %d" calls last_end lo')
+          else None
+        | _ -> None) in
     { model = model @ extra; tags; spec; known = None })
 
 let () = find_handler "C09"
+let () = find_handler "C15"
